@@ -22,6 +22,24 @@ class Case:
         self.expect = expect      # "accepted" | "refused" (exp2cxx's identifier-length gate must reject it)
 
 
+TIME_LIMIT = 60      # seconds; the largest shipped schema takes < 10 s
+
+
+class _Res:
+    def __init__(self, rc, out, err):
+        self.returncode, self.stdout, self.stderr = rc, out, err
+
+
+def run_limited(cmd, cwd, env, limit=None):
+    """rc = "timeout" when the program does not finish within the limit (it is killed)"""
+    try:
+        r = subprocess.run(cmd, cwd=cwd, env=env, capture_output=True, text=True, errors="replace", timeout=limit or TIME_LIMIT)
+        return _Res(r.returncode, r.stdout, r.stderr)
+    except subprocess.TimeoutExpired as e:
+        return _Res("timeout", (e.stdout or b"").decode("latin-1") if isinstance(e.stdout, bytes) else (e.stdout or ""),
+                    f"killed after {limit or TIME_LIMIT} s without terminating")
+
+
 # ---------------------------------------------------------------- running the real tools
 def run_real(b, case, root):
     """-> dict(exp, accepted, dirs_out, cmakes={dir: text}, created=[...], sc_rc, cx_rc)"""
@@ -37,8 +55,9 @@ def run_real(b, case, root):
         with open(exp, "w") as fh:
             fh.write(case.text)
     env = b.env()
-    r2 = subprocess.run([b.tool("exp2cxx"), exp], cwd=cx, env=env, capture_output=True, text=True, errors="replace")
-    r1 = subprocess.run([G.build_scanner(b), exp], cwd=sc, env=env, capture_output=True, text=True, errors="replace")
+    lim = 4 if (case.text is not None and len(case.text) < 20000) else TIME_LIMIT    # small generated inputs take ~10 ms
+    r2 = run_limited([b.tool("exp2cxx"), exp], cx, env, lim)
+    r1 = run_limited([G.build_scanner(b), exp], sc, env, lim)
     res = {"exp": exp, "sc_rc": r1.returncode, "cx_rc": r2.returncode, "sc_err": r1.stderr[-500:], "cx_err": r2.stderr[-500:]}
     res["accepted"] = (r1.returncode == 0 and r2.returncode == 0)
     res["dirs_out"] = [l for l in r1.stdout.split("\n") if l]
@@ -398,6 +417,27 @@ def shape_cases(ctx, quick):
     return out
 
 
+def select_nesting_cases(ctx, quick):
+    """acyclic chains of nested selects of depth 2..40 under several name orders (the number of sweeps checkTypes needs is
+    the number of links whose outer select precedes its member in hash order), directly and through LIST types; and selects
+    that contain each other in a circle through aggregates (termination!)"""
+    r = ctx.rng
+    out = []
+    depths = [2, 3, 5, 8, 11, 12, 16, 20, 25, 32, 40] if quick else list(range(2, 41))
+    for d in depths:
+        orders = {"ascending": [f"choice_{i:02d}" for i in range(1, d + 1)],
+                  "descending": [f"choice_{i:02d}" for i in range(d, 0, -1)],
+                  "words": [f"{w}_{i}" for i, w in enumerate(r.sample(["pick", "option", "variant", "alt", "kind", "way", "branch", "case_of", "route", "mode"] * 4, d))]}
+        for oname, names in orders.items():
+            for agg in ((False, True) if (not quick or d in (3, 16, 40)) else (False,)):
+                f = SG.select_chain_schema(names, through_aggregate=agg)
+                out.append(Case(f"select-chain:{d}:{oname}{':via-list' if agg else ''}", f.text(), "select_nesting_chain_schema_file", ast=G.ast_from_gen(f), gen=f))
+    for n in (2, 3) if quick else (2, 3, 4, 7):
+        f = SG.select_cycle_through_aggregates_schema(n)
+        out.append(Case(f"select-cycle-through-aggregates:{n}", f.text(), "select_cycle_schema_file", ast=G.ast_from_gen(f), gen=f))
+    return out
+
+
 def shipped_cases(b, quick):
     data = os.path.join(b.src, "data")
     files = sorted(glob.glob(os.path.join(data, "*", "*.exp"))) + sorted(glob.glob(os.path.join(b.src, "test", "unitary_schemas", "*.exp")))
@@ -425,7 +465,14 @@ def examine(ctx, b, case, model_exe, idx):
         # (or the generator's output is never built).  (Inputs exp2cxx must refuse by its documented identifier gate are
         # handled above and never reach this point.)
         who = "schema_scanner exits 0 and writes a build description, exp2cxx fails" if res["sc_rc"] == 0 else "exp2cxx exits 0, schema_scanner fails"
-        ctx.violation("acceptance-mismatch:" + ("scanner-only" if res["sc_rc"] == 0 else "generator-only"),
+        key = "acceptance-mismatch:" + ("scanner-only" if res["sc_rc"] == 0 else "generator-only")
+        if res["cx_rc"] == "timeout":
+            cyc = SG.select_cycle_in(case.gen) if case.gen is not None else []
+            # decided from the schema: the known shape is selects containing each other (through aggregates) in a circle
+            key = "exp2cxx-does-not-terminate:" + ("select-cycle-through-aggregates" if cyc else "other")
+            who = (f"schema_scanner exits 0 and writes a build description; exp2cxx does not terminate"
+                   + (f" (selects {cyc} contain each other in a circle through aggregate types: checkTypes' sweep loop never settles)" if cyc else ""))
+        ctx.violation(key,
                       f"[{case.name}] {who} (scanner rc={res['sc_rc']}, exp2cxx rc={res['cx_rc']}: {(res['cx_err'] if res['sc_rc'] == 0 else res['sc_err'])[-160:].strip()!r})",
                       {"file_name": os.path.join(case.subdir, case.stem + ".exp") if not case.exp_path else case.exp_path,
                        "express": case.text if case.text is not None else f"<shipped file {case.exp_path}>",
@@ -447,6 +494,7 @@ def examine(ctx, b, case, model_exe, idx):
     ctx.hist("inputs", "shipped" if case.exp_path else ("generated" if case.gen is not None and case.name.startswith("gen-") else
                                                           "renamed-in-select" if case.name.startswith("renamed-in-select") else
                                                           "type-only" if case.name.startswith("type-only") else
+                                                          "select-nesting" if case.name.startswith("select-") else
                                                           "long-identifier" if case.name.startswith("long-identifier") else "fixed"))
     ctx.hist("schemas-per-file", str(min(len(names), 4)) + ("+" if len(names) >= 4 else ""))
     if case.gen is not None:
@@ -512,6 +560,7 @@ def run(ctx):
                           ast=[(n, ds) for n, ds in d["ast"]]))
     cases += fixed_cases()
     cases += shape_cases(ctx, quick)
+    cases += select_nesting_cases(ctx, quick)
     cases += renamed_in_select_cases(ctx, 40 if quick else 400)
     cases += generated_cases(ctx, 40 if quick else 300)
     cases += shipped_cases(b, quick)
@@ -523,7 +572,7 @@ def run(ctx):
     ctx.cov["rule"] = ("per input file: CMakeLists.txt of every schema byte-compared with the model, stdout directory lines, the set of files "
                        "exp2cxx created vs the model (pass suffixes predicted when no cross-schema dependency, observed otherwise); "
                        "fixed inputs cover every defined-type shape incl. renamed enum/select, the three known defect shapes and exp2cxx's identifier-length gate (232 refused, 200 accepted); "
-                       "type-only schemas (each defined-type kind alone), identifiers of 60..200 characters singly/in pairs for every declaration kind; renamed enumerations/selects reached from selects (item, attribute of an entity item, aggregate, inherited) under 40/400 identifier permutations; generated: 1-3 schemas per file, REFERENCE FROM, mixed-case and case-colliding identifiers, file names/dirs exercising makeShortName")
+                       "select nesting chains of depth 2..40 under three name orders (directly / through LIST), select cycles through aggregates; type-only schemas (each defined-type kind alone), identifiers of 60..200 characters singly/in pairs for every declaration kind; renamed enumerations/selects reached from selects (item, attribute of an entity item, aggregate, inherited) under 40/400 identifier permutations; generated: 1-3 schemas per file, REFERENCE FROM, mixed-case and case-colliding identifiers, file names/dirs exercising makeShortName")
     if cases:
         ctx.sample({"input": cases[0].name, "express_head": (cases[0].text or "")[:300]})
     gen = [c for c in cases if c.name.startswith("gen-")]
